@@ -155,6 +155,10 @@ fn constellation<S: SigT>(rep: &mut Report, name: &str, msm4: u16, table: &'stat
             if (c == Ordering::Equal) != (x == y) {
                 fail(rep, "equal-iff-same".into(), format!("cmp({:?},{:?}) = {:?}", x, y, c));
             }
+            // the type's own `==` (consistent with the order: equal exactly for the same descriptor)
+            if (S::mk(x.0, x.1) == S::mk(y.0, y.1)) != (x == y) {
+                fail(rep, "eq-operator".into(), format!("{:?} == {:?} is {} although cmp = {:?}", x, y, S::mk(x.0, x.1) == S::mk(y.0, y.1), c));
+            }
             if cmp(y, x) != c.reverse() {
                 fail(rep, "antisymmetry".into(), format!("cmp({:?},{:?}) = {:?} but cmp({:?},{:?}) = {:?}", x, y, c, y, x, cmp(y, x)));
             }
